@@ -32,10 +32,27 @@ type target struct {
 
 var typeMap = map[string]string{
 	"uint": "UInt64", "uint64": "UInt64", "uint32": "UInt32", "uint8": "UInt8", "byte": "UInt8", "bool": "Bool",
+	"int": "Int64", "int64": "Int64",
 	"VotingPower": "UInt64", "types.VotingPower": "UInt64", "SchemaVersion": "UInt64", "DataAvailabilityMode": "UInt32",
 }
 
 var width = map[string]int{"UInt64": 64, "UInt32": 32, "UInt8": 8}
+
+// shift helper suffix per lean type (signed 64-bit integers have their own helpers)
+var shiftSuffix = map[string]string{"UInt64": "64", "UInt32": "32", "UInt8": "8", "Int64": "64i"}
+
+// math/bits functions with a Lean counterpart in the prelude: argument type, helper. All return Go int.
+var bitsFns = map[string][2]string{
+	"Len": {"UInt64", "Go.bitsLen64"}, "Len64": {"UInt64", "Go.bitsLen64"},
+	"OnesCount": {"UInt64", "Go.onesCount64"}, "OnesCount64": {"UInt64", "Go.onesCount64"},
+}
+
+func toNat(s, ty string) string {
+	if ty == "Int64" {
+		return "(" + s + ").toNatClampNeg" // Go panics on a negative count; never the case in the listed functions
+	}
+	return "(" + s + ").toNat"
+}
 
 type tr struct {
 	env     map[string]string // variable -> lean type
@@ -133,6 +150,16 @@ func (t *tr) expr(e ast.Expr, want string) (string, string) {
 			}
 		}
 		if sel, ok := x.Fun.(*ast.SelectorExpr); ok {
+			if pk, isPk := sel.X.(*ast.Ident); isPk && pk.Name == "bits" {
+				if bf, ok := bitsFns[sel.Sel.Name]; ok && len(x.Args) == 1 {
+					a, at := t.expr(x.Args[0], bf[0])
+					if at != bf[0] {
+						fail("bits.%s of a %s", sel.Sel.Name, at)
+					}
+					return "(" + bf[1] + " " + a + ")", "Int64"
+				}
+				fail("math/bits function %s", sel.Sel.Name)
+			}
 			if ln, ok := t.leanOf[sel.Sel.Name]; ok {
 				rs, _ := t.expr(sel.X, "UInt64")
 				args := []string{rs}
@@ -156,12 +183,16 @@ func (t *tr) expr(e ast.Expr, want string) (string, string) {
 			return "(" + l + " " + op + " " + r + ")", "Bool"
 		case token.SHL, token.SHR:
 			l, lt := t.expr(x.X, want)
-			r, _ := t.expr(x.Y, "")
+			r, rt := t.expr(x.Y, "")
 			fn := "Go.shl"
 			if x.Op == token.SHR {
 				fn = "Go.shr"
 			}
-			return fmt.Sprintf("(%s%d %s (%s).toNat)", fn, width[lt], l, r), lt
+			suf, ok := shiftSuffix[lt]
+			if !ok {
+				fail("shift of a %s", lt)
+			}
+			return fmt.Sprintf("(%s%s %s %s)", fn, suf, l, toNat(r, rt)), lt
 		}
 		// infer operand type: a literal adopts the other side's type
 		_, lIsLit := x.X.(*ast.BasicLit)
@@ -344,6 +375,12 @@ func main() {
 		sb.WriteString(fmt.Sprintf("def Go.shl%d (x : UInt%d) (n : Nat) : UInt%d := if n < %d then x <<< (UInt%d.ofNat n) else 0\n", w, w, w, w, w))
 		sb.WriteString(fmt.Sprintf("def Go.shr%d (x : UInt%d) (n : Nat) : UInt%d := if n < %d then x >>> (UInt%d.ofNat n) else 0\n", w, w, w, w, w))
 	}
+	sb.WriteString("def Go.shl64i (x : Int64) (n : Nat) : Int64 := if n < 64 then x <<< (Int64.ofNat n) else 0\n")
+	sb.WriteString("def Go.shr64i (x : Int64) (n : Nat) : Int64 := if n < 64 then x >>> (Int64.ofNat n) else (if x < 0 then -1 else 0)\n")
+	sb.WriteString("/-- `math/bits.Len64` (and `bits.Len` on a 64-bit platform): the minimum number of bits to represent `x`, 0 for 0. -/\n")
+	sb.WriteString("def Go.bitsLen64 (x : UInt64) : Int64 := Int64.ofNat (if x.toNat = 0 then 0 else Nat.log2 x.toNat + 1)\n")
+	sb.WriteString("/-- `math/bits.OnesCount64`. -/\n")
+	sb.WriteString("def Go.onesCount64 (x : UInt64) : Int64 := Int64.ofNat ((List.range 64).countP fun i => x.toNat.testBit i)\n")
 	sb.WriteString("\n")
 	fset := token.NewFileSet()
 	for _, tg := range targets {
@@ -373,6 +410,22 @@ func main() {
 			fail("function %s.%s not found in %s", tg.Recv, tg.Func, tg.File)
 		}
 		t := &tr{env: map[string]string{}, leanOf: leanOf, consts: map[string]string{}}
+		// package-level untyped integer constants of the same file (literal values only)
+		for _, d := range file.Decls {
+			gd, ok := d.(*ast.GenDecl)
+			if !ok || gd.Tok != token.CONST {
+				continue
+			}
+			for _, sp := range gd.Specs {
+				vs := sp.(*ast.ValueSpec)
+				if vs.Type != nil || len(vs.Names) != 1 || len(vs.Values) != 1 {
+					continue
+				}
+				if lit, ok := vs.Values[0].(*ast.BasicLit); ok && lit.Kind == token.INT {
+					t.consts[vs.Names[0].Name] = lit.Value
+				}
+			}
+		}
 		var params []string
 		if fd.Recv != nil {
 			r := fd.Recv.List[0]
